@@ -6,6 +6,7 @@ package simos
 import (
 	"errors"
 	"fmt"
+	goos "os"
 	"io"
 	"io/fs"
 	"path"
@@ -250,7 +251,14 @@ func siteChain() (string, string) {
 	return fns[0], strings.Join(fns, "<")
 }
 
+// TraceOps (VERIF_LOG_OPS=1): print every mutating operation with its task (debugging aid).
+var TraceOps = goos.Getenv("VERIF_LOG_OPS") != ""
+
 func (f *FS) log(op *Op) {
+	if TraceOps && op.Mutating() && simrt.S != nil {
+		st, _ := siteChain()
+		fmt.Printf("  OP t=%d task=%s kind=%d %s off=%d len=%d at %s\n", simrt.NowNanos(), simrt.S.TaskName(simrt.CurTaskID()), op.Kind, op.Path, op.Off, len(op.Data), st)
+	}
 	if !f.Record {
 		return
 	}
@@ -494,6 +502,10 @@ func (fl *File) doWrite(b []byte, off int64) {
 	fl.ino.writeAt(b, off)
 	fl.ino.mtime = simrt.NowNanos()
 	fl.fs.WriteOps++
+	if TraceOps && simrt.S != nil {
+		st, _ := siteChain()
+		fmt.Printf("  OP t=%d task=%s write %s off=%d len=%d at %s\n", simrt.NowNanos(), simrt.S.TaskName(simrt.CurTaskID()), fl.name, off, len(b), st)
+	}
 	if fl.fs.Record {
 		d := make([]byte, len(b))
 		copy(d, b)
